@@ -1,4 +1,4 @@
-import Bolt.Model.BktAbs
+import Bolt.Model.BktInv
 import Bolt.Driver.BTree
 namespace Bolt.Driver
 open Bolt Bolt.BTree Bolt.Bkt
@@ -54,7 +54,7 @@ def bkStep (s : BkSt) (line : String) : BkSt × String :=
       -- the first hand-over initialises the reference state; later ones must agree with it
       let first := dumpSVal s.spec == dumpSVal (SVal.bkt 0 [])
       let sp' := if first then sp else s.spec
-      ({ s with orig := b, cur := some (closeAll b), spec := sp' }, "ok" ++ (if dumpSVal sp == dumpSVal sp' then " a=true" else " a=false"))
+      ({ s with orig := b, cur := some (closeAll b), spec := sp' }, "ok" ++ (if dumpSVal sp == dumpSVal sp' then " a=true" else " a=false") ++ s!" o={origOk Bkt.fuel b} w={decide (WF Bkt.fuel b (closeAll b))}")
     | none => ({ s with cur := none }, "bad-bucket-tree")
   | ["cfg", ps, sth, rth] => ({ s with ps := ps.toNat!, sth := sth.toNat!, rth := rth.toNat! }, "ok")
   | ["open", path, name] => at_ path (openAt Bkt.fuel s.orig (parseBPath path) (unhex name)) "nil" (fun r _ => .ok r)
@@ -64,7 +64,8 @@ def bkStep (s : BkSt) (line : String) : BkSt × String :=
   | ["del", path, k] => at_ path (delAt Bkt.fuel (unhex k)) "none" (fun r p => apiDelete r p (unhex k))
   | ["seq", path, n] => at_ path (setSeqAt n.toNat!) "none" (fun r p => apiSetSequence r p n.toNat!)
   | ["dump"] => (s, match s.cur with | some b => showBk b | none => "none")
-  | ["agree"] => (s, match s.cur with | some b => (agree b s.spec).trimAscii.toString | none => "none")
+  | ["agree"] => (s, match s.cur with | some b => (agree b s.spec).trimAscii.toString ++ s!" w={decide (WF Bkt.fuel s.orig b)}" | none => "none")
+  | ["fullok"] => (s, match s.cur with | some b => s!"o={origShapeOk Bkt.fuel (full s.orig Bkt.fuel [] b)}" | none => "none")
   | ["commit", order] =>
     match s.cur with
     | none => (s, "none")
